@@ -14,6 +14,7 @@ from . import refmodel as R
 from . import specs as S
 
 TOL_REL = 1e-10
+BUDGET = [20000]  # comparisons per case; further nested calls (quadrature loops) are counted, not compared
 VM_ABS = 1e-9
 
 
@@ -143,6 +144,9 @@ def _post(kind):
             return
         if call.exc is not None:
             c.count(f"dist.{kind}.raised")
+            return
+        if c.counts["dist.compare"] >= BUDGET[0]:
+            c.count("dist.calls-beyond-budget")
             return
         x = call.args[0] if call.args else call.kwargs.get("x", call.kwargs.get("prob"))
         try:
